@@ -393,7 +393,9 @@ pub fn build_input(g: &Grammar, rule: &str, bytes: &[u8], cfg: &InputCfg, alphab
     let tokens = std::mem::take(&mut d.tokens);
     if repeat {
         // a long periodic input: the derivation repeated (closures, caches and error bookkeeping over many positions)
-        let n = src.range(2, 8);
+        // rarely a very long one (hundreds of iterations: counters, caches, stack use)
+        let very_long = src.chance(24);
+        let n = if very_long { src.range(60, 400) } else { src.range(2, 8) };
         let sep = *src.choose(&["", " ", ",", ";"]);
         let mut long = String::new();
         for i in 0..n {
@@ -402,7 +404,8 @@ pub fn build_input(g: &Grammar, rule: &str, bytes: &[u8], cfg: &InputCfg, alphab
             }
             long.push_str(&out);
         }
-        return (clip(long, cfg.max_len), InputKind::Derived);
+        let cap = if very_long { cfg.max_len * 12 } else { cfg.max_len };
+        return (clip(long, cap), InputKind::Derived);
     }
     if mode == 0 {
         (clip(out, cfg.max_len), InputKind::Derived)
